@@ -130,9 +130,11 @@ OUTER:
 		// if there were no terms to highlight
 		// produce a single fragment from the beginning
 		start := 0
-		end := start + s.fragmentSize
-		if end > len(orig) {
-			end = len(orig)
+		end := start
+		// fragmentSize counts runes: do not cut inside a multi-byte rune
+		for used := 0; end < len(orig) && used < s.fragmentSize; used++ {
+			_, size := utf8.DecodeRune(orig[end:])
+			end += size
 		}
 		rv = append(rv, &Fragment{Orig: orig, Start: start, End: end})
 	}
